@@ -26,6 +26,8 @@ pub struct Unit {
     pub flags: Vec<String>,
     /// false: only run lalrpop on it (text-level checks), do not compile
     pub compile: bool,
+    /// extra grammar parameters passed to `parse` after `cx` (Rust expressions)
+    pub extra_args: Vec<String>,
 }
 
 #[derive(Clone, Debug, PartialEq, Eq)]
@@ -288,14 +290,15 @@ impl Batch {
                         self.dir.join("src_all").join(format!("{}.rs", u.module)).display(),
                         u.module
                     ));
+                    let extra: String = u.extra_args.iter().map(|a| format!(", {a}")).collect();
                     for s in &u.starts {
                         match &u.loc_ty {
                             Some(l) => arms.push_str(&format!(
-                                "        (\"{m}\", \"{s}\") => Some(rt::run_toks!(q, {m}::{s}Parser, {l})),\n",
+                                "        (\"{m}\", \"{s}\") => Some(rt::run_toks!(q, {m}::{s}Parser, {l}{extra})),\n",
                                 m = u.module
                             )),
                             None => arms.push_str(&format!(
-                                "        (\"{m}\", \"{s}\") => Some(rt::run_str!(q, {m}::{s}Parser)),\n",
+                                "        (\"{m}\", \"{s}\") => Some(rt::run_str!(q, {m}::{s}Parser{extra})),\n",
                                 m = u.module
                             )),
                         }
